@@ -29,7 +29,11 @@ def exprs(tier):
     two = [L.C_ST, L.Rot(L.SQ, L.aff(0, s=1, t=1)), L.Tr(L.C_GROW, [L.aff(0, s=1), 0.0]),
            L.Cut(L.SQ_MOVE, L.C([L.aff(0.5, s=0.2, t=1), 0.5], 0.2), contained=True),
            L.U(L.C_GROW, L.C([L.aff(3, s=1), 0], 0.5), disjoint=True), L.I(L.aff(0, s=1), L.aff(2, s=1, t=1))]
-    out = [a for a in L.solids(tier) + L.products(tier) if G.free_vars(a)] + two
+    C_S = L.C([L.aff(0.5, s=0.3), 0.5], 0.6)
+    # operands with DIFFERENT variable sets (a variable of the second operand must not leak into the first)
+    mixed = [L.N(L.SQ, L.C_GROW), L.N(C_S, L.SQ_MOVE), L.U(L.SQ, L.C_GROW), L.U(C_S, L.SQ_MOVE), L.Cut(C_S, L.G_CMOVE),
+             L.Tr(L.N(L.SQ, L.C_GROW), [L.aff(0, t=1), 0.0]), L.X(L.N(L.SQ, L.C([0.5, 0.5], L.aff(0.3, s=0.3))), L.IT)]
+    out = [a for a in L.solids(tier) + L.products(tier) if G.free_vars(a)] + two + mixed
     out += [L.B(a) for a in out if G.is_solid(a) and not G.has_kind_prod(a)][: (25 if tier == "quick" else 10 ** 6)]
     out += [L.BL(L.I_MOVE), L.BR(L.I_GROW), L.Pt([L.aff(0, t=1), 0.5])]
     return L.dedupe(out)
@@ -90,6 +94,31 @@ def run_item(item):
     nv0 = set(D.necessary_variables)
     if nv0 != set(fv):
         viol("C17|necessary-variables|%s" % top_sig(a), "necessary_variables = %s, free variables of the expression = %s" % (sorted(nv0), fv))
+
+    def check_tree(Dx, ax, when):
+        """every operand object inside the expression declares exactly the free variables of its sub-expression
+        (building or evaluating the composite must not leak variables into its operands)"""
+        k = ax["k"]
+        subs = []
+        if k in ("union", "cut", "inter", "prod"):
+            subs = [(getattr(Dx, "domain_a", None), ax["a"]), (getattr(Dx, "domain_b", None), ax["b"])]
+        elif k in ("translate", "rotate"):
+            subs = [(getattr(Dx, "domain", None), ax["a"])]
+        elif k == "boundary":
+            inner = getattr(Dx, "domain", None)
+            if inner is not None and ax["a"]["k"] not in ("translate", "rotate"):
+                subs = [(inner, ax["a"])]
+        for sub, sa in subs:
+            if sub is None or not hasattr(sub, "necessary_variables"):
+                continue
+            want = set(G.free_vars(sa))
+            if k == "prod" and sa is ax["a"]:
+                pass
+            if set(sub.necessary_variables) != want:
+                viol("C17|operand-necessary-variables|%s" % top_sig(ax),
+                     "%s: operand %s declares necessary_variables %s, its free variables are %s" % (when, G.show(sa), sorted(sub.necessary_variables), sorted(want)))
+            check_tree(sub, sa, when)
+    check_tree(D, a, "after construction")
     solid = G.is_solid(a)
     order = space_order(a)
     encs = BOUNDS[tier]["encodings"]
@@ -215,6 +244,30 @@ def run_item(item):
                             i = int(np.where(~okm)[0][0])
                             viol("C17|sample-outside|%s" % top_sig(a), "after %s (%s) the %s sample %s is not in the set at %s" % (
                                 hist, enc, mode, {v: sv[v][i].tolist() for v in order}, full))
+            # branch: evaluate the ORIGINAL again, fixing a different variable; the earlier history must not show
+            for u in fv:
+                if u in hist[0]:
+                    continue
+                for w in BOUNDS[tier]["values"][:2]:
+                    try:
+                        E2 = D(**{u: encode(w, enc)})
+                        nv2 = set(E2.necessary_variables)
+                        if nv2 != set(fv) - {u}:
+                            viol("C17|original-changed|branch-necessary-variables|%s" % top_sig(a),
+                                 "after %s, evaluating the ORIGINAL at %s=%s gives necessary_variables %s, expected %s" % (hist, u, w, sorted(nv2), sorted(set(fv) - {u})))
+                            continue
+                        rest2 = {v: 0.5 for v in fv if v != u}
+                        o2, v2 = observe(E2, G.substitute(a, {u: w}), rest2)
+                        o1, _ = observe(Bd.build_tp(a), a, dict(rest2, **{u: w}))
+                        v2[u] = np.full((len(Q), 1), w)
+                        farb = (np.abs(G.sdf(a, v2)) > TOL_FAR * scale) if solid else G.far_from(a, v2, TOL_FAR * scale)
+                        if ((o2["contains"] != o1["contains"]) & farb).any():
+                            viol("C17|original-changed|branch-membership|%s" % top_sig(a),
+                                 "after %s, evaluating the ORIGINAL at %s=%s denotes another set than a fresh domain at those values" % (hist, u, w))
+                    except Exception as e:
+                        if not is_deliberate(e):
+                            viol("C17|error|%s|branch|%s" % (type(e).__name__, top_sig(a)), "after %s, evaluating the original at %s=%s raised %s: %s" % (hist, u, w, exc_sig(e), str(e)[:100]))
+            check_tree(D, a, "after the history %s" % hist)
             # the original is unchanged
             try:
                 after = observe(D, a, {v: 0.5 for v in fv})[0]
